@@ -462,7 +462,7 @@ struct cap_out
     DV val;
     size_t consumed = 0;
 };
-cap_out a_capped(char kind, size_t cap, const std::string &payload, const std::string &desc, const DV &v, const bytes &rest);
+cap_out a_capped(char kind, size_t cap, const std::string &payload, const std::string &desc, const DV &v, const bytes &rest, size_t trunc = (size_t)-1);
 // binary_buffer_writer over an exactly sized buffer (size = what binary_string_writer produced)
 bytes a_binwriter(const std::string &desc, const DV &v, size_t size);
 bool a_binwriter_has(const std::string &desc);
